@@ -34,6 +34,7 @@ type c04case struct {
 	StartOffset int64    `json:"start_offset"`
 	Stream      []string `json:"stream_head,omitempty"`
 	Cut         int      `json:"cut_byte,omitempty"`
+	SourceDrop  int64    `json:"source_link_drops_at_stream_byte,omitempty"`
 }
 
 // applyRef applies source commands to a model the way Redis would (the reference history).
@@ -181,6 +182,15 @@ func runC04(r resIface, c *c04case, rng *prng.R, nRestarts int) {
 	ends := allowedEnds(cmds, &c.Cfg)
 	want := expectedForward(cmds, &c.Cfg, 0)
 	wantData, _ := stripPings(want)
+	if c.SourceDrop > 0 {
+		// the source link breaks once (mid-stream, usually mid-command); the tool comes back with PSYNC/CONTINUE
+		// and every checkpoint written afterwards must still name the true stream position
+		c.SourceDrop = 1 + c.SourceDrop%int64(len(stream)-1)
+		e.Src.DropAfter(c.SourceDrop)
+		if inChild {
+			wk.ChildCase(c.Index, c)
+		}
+	}
 	lastAt := feedPlan(c.Plan, time.Duration(c.GapMs)*time.Millisecond, cmds, e.Src.Feed)
 	count := func() int {
 		lg := e.DataLog()
@@ -188,7 +198,11 @@ func runC04(r resIface, c *c04case, rng *prng.R, nRestarts int) {
 		g, _ := stripPings(got)
 		return len(g)
 	}
-	complete := waitUntil(6*time.Second+time.Duration(c.N)*2*time.Millisecond, func() bool { return count() >= len(wantData) })
+	patience := 6*time.Second + time.Duration(c.N)*2*time.Millisecond
+	if c.SourceDrop > 0 {
+		patience += 6 * time.Second // the tool waits a second before it reconnects
+	}
+	complete := waitUntil(patience, func() bool { return count() >= len(wantData) })
 	time.Sleep(50 * time.Millisecond)
 	sig := func(o string) string { return fmt.Sprintf("C04|outcome=%s|config=%s", o, cfgClass(&c.Cfg)) }
 	if !complete {
@@ -200,6 +214,14 @@ func runC04(r resIface, c *c04case, rng *prng.R, nRestarts int) {
 	B := e.ConnBytes(ic)
 	r.Count("histories", 1)
 	r.Count("target_stream_bytes", int64(len(B)))
+	if c.SourceDrop > 0 {
+		_, ps := e.Src.Snapshot()
+		r.Count("histories_with_a_source_reconnect", 1)
+		if len(ps) < 2 {
+			r.Inconcl(fmt.Sprintf("source link was dropped at stream byte %d but the tool never reconnected", c.SourceDrop))
+			return
+		}
+	}
 	// state after the full phase = everything applied on other connections
 	base := miniredis.NewServer()
 	for _, k := range rdbKeys {
@@ -457,6 +479,9 @@ func c04histChild(raw json.RawMessage, scratch string) {
 		if c.Plan == "gaps" {
 			c.GapMs = 480 + 5*rng.Intn(9)
 		}
+		if i%2 == 1 {
+			c.SourceDrop = int64(rng.Range(1, 1<<30)) // reduced modulo the stream length once that is known
+		}
 		if a.Tier == "thorough" && c.N <= 20 {
 			restarts = 1000 // all checkpoints of short histories
 		}
@@ -471,7 +496,7 @@ func c04histChild(raw json.RawMessage, scratch string) {
 
 func c04(c *wk.Ctx) {
 	r := c.R
-	r.Rule = "fault enumeration over cut positions: one uninterrupted resume-enabled end-to-end run per history (multi-database streams with transactions, pings, filtered commands, INCR/APPEND/RPUSH so that loss and duplication show; sender.count {1,2,5,1024}; arrival plans that let the 500 ms ticker split batches) yields the exact byte stream the target received; EVERY command boundary and every byte inside one command in eight (plus mid-point and last byte of the others) is taken as a cut: the prefix is replayed into a model Redis with MULTI/EXEC semantics (an unfinished MULTI is discarded as Redis does on disconnect) and the stored checkpoint (run id, version, offset, database) must describe exactly the source history applied so far; from sampled distinct checkpoints a real DbSyncer is restarted against that state and a master that honours PSYNC <runid> <offset+1>, and must end with the uninterrupted run's dataset. distinct = (configuration, sender.count, arrival plan, #cuts class, #distinct checkpoints)"
+	r.Rule = "fault enumeration over cut positions: one uninterrupted resume-enabled end-to-end run per history (multi-database streams with transactions, pings, filtered commands, INCR/APPEND/RPUSH so that loss and duplication show; sender.count {1,2,5,1024}; arrival plans that let the 500 ms ticker split batches) yields the exact byte stream the target received; EVERY command boundary and every byte inside one command in eight (plus mid-point and last byte of the others) is taken as a cut (in every second history the source link itself breaks once at an arbitrary stream byte and the tool re-attaches with PSYNC/CONTINUE before the cuts are taken): the prefix is replayed into a model Redis with MULTI/EXEC semantics (an unfinished MULTI is discarded as Redis does on disconnect) and the stored checkpoint (run id, version, offset, database) must describe exactly the source history applied so far; from sampled distinct checkpoints a real DbSyncer is restarted against that state and a master that honours PSYNC <runid> <offset+1>, and must end with the uninterrupted run's dataset. distinct = (configuration, sender.count, arrival plan, #cuts class, #distinct checkpoints)"
 	onDeath := func(d wk.Death) {
 		if d.Result.TimedOut {
 			r.Inconcl("C04 child watchdog: " + wk.Tail(d.Result.Stderr, 300))
@@ -483,11 +508,12 @@ func c04(c *wk.Ctx) {
 		return
 	}
 	ncfg := c.N(8, 16)
-	per := c.N(2, 12)
+	per := c.N(2, 36)
 	wk.Parallel(ncfg, 16, func(i int) {
 		wk.RunBatch(c, "c04hist", i*100000, i*100000+per, c04extra{CfgIdx: i}, 60*time.Minute, onDeath)
 	})
 	r.Floor("histories", 8)
+	r.Floor("histories_with_a_source_reconnect", 4)
 	r.Floor("cut_states_checked", 3000)
 	r.Floor("distinct_checkpoints_seen", 50)
 	r.Floor("restarts", 20)
